@@ -188,6 +188,8 @@ structure St where
   aliased : Bool := false                  -- a slot handed out a token equal to one issued before (generation wrap, F12)
   dupInsert : Bool := false                -- a source object was inserted while it already sat in a slot (ruled out by
                                            -- Rust's move semantics; in the model by the `owned` flag)
+  reEnabled : Bool := false                -- a timer that still held a registration was registered again (`enable` of
+                                           -- a source that is not disabled: outside `enable`'s contract)
   deriving Repr
 
 abbrev M := EStateM Exc St
@@ -345,7 +347,7 @@ def timerRegister (k : Nat) (f : Factory) : M Unit := do
     | some d =>
       let (t, _) ← takeToken f
       let (w', c) := insert (← get).wheel d t
-      modify fun st => { st with wheel := w' }
+      modify fun st => { st with wheel := w', reEnabled := st.reEnabled || s.treg.isSome }
       modSrc k fun s => { s with treg := some (t, c) }
     | none => pure ()
   | none => pure ()
@@ -833,9 +835,8 @@ def dispatchEvents : M Unit := do
   -- `Poll::poll`: the poller's report, then every expired timer in pop order
   let (evs, k') := epWait (← get).k
   modify fun s => { s with k := k' }
-  let s ← get
-  let (exp, w') := popExpired s.wheel s.now s.wheel.heap.length
-  modify fun s => { s with wheel := w' }
+  let exp := (popExpired (← get).wheel (← get).now (← get).wheel.heap.length).1
+  modify fun s => { s with wheel := (popExpired s.wheel s.now s.wheel.heap.length).2 }
   let polled := evs ++ exp.map fun e => { key := e.tok, r := true, w := false }
   forEachM (← get).life (beforeHandle polled)
   let batch := (← get).synth ++ polled
